@@ -118,6 +118,9 @@ func main() {
 			enc.SetEscapeHTML(false)
 			enc.Encode(e)
 		}
+	case "graph":
+		// graph <name> <tier> <out.json>
+		runGraph(os.Args[2], os.Args[3], os.Args[4])
 	case "ops":
 		for k := range ops {
 			fmt.Println(k)
